@@ -270,6 +270,11 @@ func execParsers(prop string) func(ctx *Ctx, in *Input) *Result {
 
 // diffParse compares two parse results of the same input ("" = equal).
 func diffParse(a, b *engbrt.ParseResult, sc *specCtx, ub *genUnit) string {
+	return diffParse2(a, b, sc, ub, false)
+}
+
+// diffParse2: sameLang also compares what the parser handed to the lexer (only comparable within one target language).
+func diffParse2(a, b *engbrt.ParseResult, sc *specCtx, ub *genUnit, sameLang bool) string {
 	ca, cb := a.Outcome, b.Outcome
 	if ca != cb {
 		return fmt.Sprintf("verdict %s vs %s (%s / %s)", ca, cb, a.Msg, b.Msg)
@@ -284,6 +289,9 @@ func diffParse(a, b *engbrt.ParseResult, sc *specCtx, ub *genUnit) string {
 	}
 	if a.Fetched != b.Fetched {
 		return fmt.Sprintf("%d vs %d tokens requested", a.Fetched, b.Fetched)
+	}
+	if sameLang && a.InHash != b.InHash {
+		return fmt.Sprintf("the semantic values handed to the lexer differ (hash %s vs %s): the lookahead value is not fresh", a.InHash, b.InHash)
 	}
 	if ca == "accept" {
 		va, vb := valueOf(a.Value, nil, sc.Spec), valueOf(b.Value, ub, sc.Spec)
